@@ -6,7 +6,8 @@
   raised inside the running code (library `except Exception` clauses cannot swallow it);
 * every RecursionError raised anywhere during the run is noticed (RAISE event), including those a library
   `except Exception:` swallows;
-* a wall-clock alarm (SIGALRM) backs the line budget up for work done inside C functions.
+* a CPU-time alarm (ITIMER_PROF / SIGPROF: user + system time of this process, so work inside C functions counts, while
+  machine load - time spent waiting for a core - does not) backs the line budget up.
 
 classify() maps the outcome to  ok | family | leak:<Exc>@<file>:<func> | hang:<file>:<func> | recursion:<file>:<func>.
 """
@@ -25,7 +26,7 @@ EV = mon.events
 
 
 class BudgetExceeded(BaseException):
-    """raised inside the metered code when the executed-line budget (or the wall clock) is exhausted"""
+    """raised inside the metered code when the executed-line budget (or the CPU-time limit) is exhausted"""
 
 
 def _pdfminer_dir():
@@ -110,11 +111,11 @@ class Meter:
             self._rec_exc = exc
 
     def _alarm(self, signum, frame):
-        self.hang_site = self.hang_site or ("wall:" + innermost_site_of_frame(frame))
-        raise BudgetExceeded("wall clock limit")
+        self.hang_site = self.hang_site or ("cpu:" + innermost_site_of_frame(frame))
+        raise BudgetExceeded("CPU time limit")
 
     # ------------------------------------------------------------------ run
-    def run(self, fn, budget, wall=30):
+    def run(self, fn, budget, cpu=30):
         """-> (result or None, exception or None).  BudgetExceeded is returned as the exception."""
         self.count = 0
         self.budget = budget
@@ -130,8 +131,9 @@ class Meter:
             pass
         mon.register_callback(TOOL, EV.LINE, self._line)
         mon.register_callback(TOOL, EV.RAISE, self._raise)
-        old = signal.signal(signal.SIGALRM, self._alarm)
-        signal.setitimer(signal.ITIMER_REAL, wall)
+        # CPU seconds of this process, never wall-clock time: a loaded machine must not turn a slow run into a hang
+        old = signal.signal(signal.SIGPROF, self._alarm)
+        signal.setitimer(signal.ITIMER_PROF, cpu)
         res = exc = None
         try:
             mon.set_events(TOOL, EV.LINE | EV.RAISE)
@@ -139,7 +141,7 @@ class Meter:
                 res = fn()
             finally:
                 mon.set_events(TOOL, 0)
-                signal.setitimer(signal.ITIMER_REAL, 0)
+                signal.setitimer(signal.ITIMER_PROF, 0)
         except BudgetExceeded as e:
             exc = e
         except BaseException as e:      # noqa: BLE001 - the outcome is what is being classified
@@ -147,7 +149,7 @@ class Meter:
                 raise
             exc = e
         finally:
-            signal.signal(signal.SIGALRM, old)
+            signal.signal(signal.SIGPROF, old)
             mon.register_callback(TOOL, EV.LINE, None)
             mon.register_callback(TOOL, EV.RAISE, None)
         if self._rec_exc is not None:
@@ -247,12 +249,12 @@ def self_check():
         except Exception:      # noqa: BLE001
             return 1
 
-    r, e = m.run(loop, 2000, wall=10)
+    r, e = m.run(loop, 2000, cpu=10)
     if not isinstance(e, BudgetExceeded):
         raise MachineryError("work meter did not stop an endless loop")
-    r, e = m.run(swallowed, 10 ** 6, wall=10)
+    r, e = m.run(swallowed, 10 ** 6, cpu=10)
     if e is not None or r != 1 or m.recursion is None:
         raise MachineryError("work meter did not notice a swallowed RecursionError")
-    r, e = m.run(lambda: sum(range(10)), 1000, wall=10)
+    r, e = m.run(lambda: sum(range(10)), 1000, cpu=10)
     if e is not None or r != 45 or not (0 < m.count < 50):
         raise MachineryError("work meter miscounts a trivial run (%r, %r, %d)" % (r, e, m.count))
